@@ -1,5 +1,5 @@
 import MuscleModel.Pulse.Ops
-import MuscleModel.Pulse.Proofs15
+import MuscleModel.Pulse.Proofs19
 
 /-!
 # C20 — Pulse callbacks fire for every due node and never before their time
@@ -679,16 +679,99 @@ theorem lost_invalidate_live (never d k : Nat) (w w' : World) (n now mn m : Nat)
 
 /-! ## Fuel
 
-TERMINATION (a measure that bounds the fuel by tree size and script lengths) is NOT proved.  What it needs and is missing:
-(a) acyclicity of the parent pointers as an invariant (a rank function preserved by attach, which is guarded by `isAnc`): without it
-the recursion of `ReschedulePulseChild` up the parent chain (fuel `d`) has no bound; (b) for the pulse sweep the measure "total
-length of all SCHEDULED lists" — it never grows in a pulse sweep, whatever the scripts do, and every completed `PulseAux` takes its
-node out of a SCHEDULED list — plus the script lengths for the callbacks; (c) for the `GetPulseTimeAux` sweep the number of nodes
-in NEEDSRECALC lists plus the total length of the queued `GetPulseTime` scripts (each callback consumes one script; callbacks
-without a script re-flag nothing).  What is proved: the
-fuel is not part of the semantics — a sweep that completes with fuel `k` completes with exactly the same result with every larger
-fuel, so all theorems above are statements about THE result of a sweep, whichever sufficient fuel is passed.  In the
-correspondence runs the engine (fuel 100000) never runs out (it would print `fuel` and mismatch). -/
+TERMINATION.  Two kinds of fuel: `d` for the recursion of `ReschedulePulseChild` up the parent chain, `k` for the two sweeps.
+PROVED:
+* the fuel is not part of the semantics (`fuel_irrelevant_partial`): a sweep that completes with fuel `k` completes with exactly the
+  same result with every larger fuel;
+* fuel `d` (`reschedule_terminates`): if the parent relation has a height function bounded by `B` (`HeightLe B ht f`; a height function
+  exists in every reachable state, `finite_height_reachable`) then EVERY `ReschedulePulseChild` call completes with any `d > B` —
+  explicit bound — and so do `InvalidatePulseTime`, the last statements of `PulseAux` and of `GetPulseTimeAux`
+  (`invalidate_terminates`, `pulseFinish_terminates`, `gptFinish_terminates` in `Pulse/Proofs16.lean`); quiet callbacks always complete
+  (`callP_quiet_some`, `callG_quiet_some`);
+* fuel `k`, PULSE SWEEP, in full (`pulse_sweep_terminates_quiet`): with quiet `Pulse` scripts, a height bound `B < d` and SCHEDULED lists
+  of length `≤ N` the sweep completes with fuel `B * (N + 2)` — the measure is (height of the node, length of its SCHEDULED list);
+* fuel `k`, RECALCULATION SWEEP, in full (`gpt_sweep_terminates_quiet`): with quiet `GetPulseTime` scripts, `Inv`, `V`, a height bound `B < d`
+  and NEEDSRECALC lists of length `≤ N` the sweep (both passes at every node) completes with fuel `B * (N + 2)` — the measure is (height
+  of the node, length of its NEEDSRECALC list).
+* the bounds `B` and `N` exist in every forest with finite support (`sweeps_terminate_finite_support`: `FSupp M`, all parent pointers among
+  the ids below `M`, gives a bounded height function and lists of length `≤ M`, hence termination of both sweeps for every `d > B`).
+STILL MISSING:
+(i) finite support as a fact about reachable states (`FSupp M` for every state reached by `runOps` from `World.init`, `M` above every id
+    mentioned in the operations and their scripts): not proved — it needs the invariant "every queued script only mentions ids below `M`"
+    through both sweeps;
+(ii) scripts that are not quiet (attach changes the height function). -/
+
+/-- fuel `d`: with a height function bounded by `B`, every `ReschedulePulseChild(child, whichList)` call on a node `p` completes with any
+    fuel `d` such that `d + ht p > B`; in particular with any `d > B`, whatever the node -/
+theorem reschedule_terminates (never B : Nat) (ht : Nat → Nat) (d : Nat) (f : Forest) (p c : Nat) (w : Option Which)
+    (h : HeightLe B ht f) (hd : B + 1 ≤ d + ht p) : ∃ f', resched never d f p c w = some f' :=
+  resched_terminates never B ht d f p c w h hd
+
+/-- non-vacuity: in the initial state (no parent pointers: height function `0`, bound `B = 1`) fuel `d = 2` suffices -/
+example : ∃ f', resched 1000 2 (World.init 1000).f 0 1 (some .recalc) = some f' :=
+  reschedule_terminates 1000 1 (fun _ => 0) 2 (World.init 1000).f 0 1 (some .recalc)
+    ⟨fun c p h => by simp [World.init, Node.fresh] at h, fun _ => Nat.zero_lt_one⟩ (Nat.le_refl 2)
+
+/-- TERMINATION OF THE PULSE SWEEP with an explicit fuel.  HYPOTHESES: `Inv`; the queued `Pulse` scripts only change requests
+    (`PQuiet`, in particular: no scripts); the parent relation has a height function bounded by `B` (`HeightLe B ht`; a height function
+    exists in every reachable state, `finite_height_reachable`; the bound is a hypothesis) and `d > B`; every SCHEDULED list has at most `N`
+    members (a hypothesis: finite support of reachable states is not proved).  CONCLUSION: `CallPulseAux(root, t)` completes with fuel
+    `B * (N + 2)` and with every larger fuel (and always with the same result, `fuel_irrelevant_partial`).  The measure: the height of
+    the node (levels) and, within a node, the length of its SCHEDULED list, which every completed child sweep shortens (the child is
+    flagged NEEDSRECALC and nothing enters a SCHEDULED list during a pulse sweep). -/
+theorem pulse_sweep_terminates_quiet (never d B N : Nat) (ht : Nat → Nat) (w : World) (root t : Nat)
+    (hi : Inv never w.f) (hq : PQuiet w) (hH : HeightLe B ht w.f) (hd : B < d)
+    (hN : ∀ x, (w.f x).sched.length ≤ N) (k : Nat) (hk : B * (N + 2) ≤ k) :
+    ∃ w', managerPulse never d k w root t = some w' :=
+  managerPulse_terminates never d B N ht hd w root t ⟨hi, hq, hH, hN⟩ k hk
+
+/-- non-vacuity: the 3-node chain 0 ← 1 ← 2 (height bound `B = 3`, lists of length `N = 1`), all three due: the sweep completes with
+    fuel `B * (N + 2) = 9` and `d = 4`, and fires all three -/
+example : ((runOps 1000 8 40 (World.init 1000)
+      [.attach 1 0, .attach 2 1, .setReq 0 50, .setReq 1 40, .setReq 2 30, .gpt 0 10]).bind
+      fun w => managerPulse 1000 4 9 w 0 60).map (·.log) =
+    some [.G 0 10 1000 50, .G 1 10 1000 40, .G 2 10 1000 30, .P 0 60 50, .P 1 60 40, .P 2 60 30] := by decide +kernel
+
+/-- TERMINATION OF THE RECALCULATION SWEEP with an explicit fuel.  HYPOTHESES: `Inv` and `V`; the queued `GetPulseTime` scripts only change
+    requests (`GQuiet`, in particular: no scripts); a height function bounded by `B` and `d > B`; every NEEDSRECALC list has at most `N`
+    members; `root` is a root.  CONCLUSION: `CallGetPulseTimeAux(root, now, min)` — both passes at every node — completes with fuel
+    `B * (N + 2)` and with every larger fuel (and always with the same result).  The measure: the height of the node and, within a node,
+    the length of its NEEDSRECALC list, which every completed child sweep shortens (the child is filed, and nothing is flagged
+    NEEDSRECALC during a quiet recalculation sweep). -/
+theorem gpt_sweep_terminates_quiet (never d B N : Nat) (ht : Nat → Nat) (w : World) (root now : Nat)
+    (hi : Inv never w.f) (hV : V w.f) (hq : GQuiet w) (hH : HeightLe B ht w.f) (hd : B < d)
+    (hN : ∀ x, (w.f x).recalc.length ≤ N) (hroot : (w.f root).parent = none) (k : Nat) (hk : B * (N + 2) ≤ k) :
+    ∃ res, managerGpt never d k w root now = some res :=
+  managerGpt_terminates never d B N ht hd w root now hi hV hq hH hN hroot k hk
+
+/-- non-vacuity: the 3-node chain 0 ← 1 ← 2 (`B = 3`, NEEDSRECALC lists of length `N = 1`), nobody asked yet: the sweep completes with fuel
+    `B * (N + 2) = 9` and `d = 4`, asks all three and reports the minimum -/
+example : ((runOps 1000 8 40 (World.init 1000)
+      [.attach 1 0, .attach 2 1, .setReq 0 50, .setReq 1 40, .setReq 2 30]).bind
+      fun w => managerGpt 1000 4 9 w 0 10).map (fun r => (r.2, r.1.log)) =
+    some (30, [.G 0 10 1000 50, .G 1 10 1000 40, .G 2 10 1000 30]) := by decide +kernel
+
+/-- THE BOUNDS EXIST IN EVERY FINITE FOREST.  `FSupp M f` = all parent pointers live among the node ids below `M` (finite support; a hypothesis:
+    that every state reached by `runOps` from `World.init` has it — with `M` above every id mentioned in the history — is NOT proved).
+    Then a bounded height function exists (`B`) and every child list has at most `M` members, so in a quiet state both sweeps complete:
+    there is a `B` such that for every `d > B` there is a `k` such that for every `k' ≥ k` `CallPulseAux` (quiet `Pulse` scripts) and
+    `CallGetPulseTimeAux` on a root (quiet `GetPulseTime` scripts) complete.  (`k = B * (M + 2)`.)  `Height` holds in every reachable state
+    (`finite_height_reachable`); `Inv` and `V` as in `wakeup_is_min_reachable`. -/
+theorem sweeps_terminate_finite_support (never M : Nat) (w : World) (hs : FSupp M w.f) (hi : Inv never w.f) (hV : V w.f)
+    (hH : Height w.f) :
+    ∃ B, ∀ d, B < d →
+      (PQuiet w → ∀ root t, ∃ k, ∀ k', k ≤ k' → ∃ w', managerPulse never d k' w root t = some w') ∧
+      (GQuiet w → ∀ root now, (w.f root).parent = none →
+        ∃ k, ∀ k', k ≤ k' → ∃ res, managerGpt never d k' w root now = some res) :=
+  sweeps_terminate_of_fsupp never M w hs hi hV hH
+
+/-- non-vacuity: the hypotheses hold in the initial state (no parent pointers: `M = 0`) -/
+example : ∃ B, ∀ d, B < d →
+      (PQuiet (World.init 1000) → ∀ root t, ∃ k, ∀ k', k ≤ k' → ∃ w', managerPulse 1000 d k' (World.init 1000) root t = some w') ∧
+      (GQuiet (World.init 1000) → ∀ root now, ((World.init 1000).f root).parent = none →
+        ∃ k, ∀ k', k ≤ k' → ∃ res, managerGpt 1000 d k' (World.init 1000) root now = some res) :=
+  sweeps_terminate_finite_support 1000 0 (World.init 1000)
+    (fun c p h => by simp [World.init, Node.fresh] at h) (inv_init 1000) (v_init 1000) (finite_height_init 1000)
 
 theorem fuel_irrelevant_partial (never d k k' : Nat) (hk : k ≤ k') :
     (∀ (w r : World) (n now : Nat), pulseAux never d k w n now = some r → pulseAux never d k' w n now = some r) ∧
